@@ -306,9 +306,9 @@ def _size(rec):
 
 
 # --------------------------------------------------------------------------- replay
-def replay_path(prop, record):
-    h = format(digest_of(record), "016x")
-    d = os.path.join(VERIF_DIR, "replays", prop)
+def replay_path(prop, record, ident=()):
+    h = format(digest_of(record, list(ident)), "016x")
+    d = os.path.join(os.environ.get("VERIF_REPLAY_DIR") or os.path.join(VERIF_DIR, "replays"), prop)
     os.makedirs(d, exist_ok=True)
     return os.path.join(d, f"{h}.json")
 
@@ -560,7 +560,7 @@ def _write_replay(mod, args, opts, viol, rec, info):
         "decoded": decoded,
         "violation": vdict,
     }
-    path = replay_path(mod.ID, rec)
+    path = replay_path(mod.ID, rec, (viol["v"]["kind"], viol["v"]["key"]))
     with open(path, "w") as f:
         json.dump(data, f, indent=1, default=repr)
     return path
